@@ -553,6 +553,7 @@ func (d *decodeState) error(msg string) *SyntaxError {
 func isIntegerType(c byte) bool {
 	return isFloatType(c) ||
 		c == 'B' || c == 'b' ||
+		c == 'I' || c == 'i' ||
 		c == 's' || c == 'S' ||
 		c == 'L' || c == 'l'
 }
